@@ -169,7 +169,7 @@ def strategy(tier, shard, nshards):
 
 def budget(tier):
     if tier == "quick":
-        return {"examples": 190, "shards": 16, "guard_s": 900}
+        return {"examples": 260, "shards": 16, "guard_s": 900}
     return {"examples": 3800, "shards": 16, "guard_s": 7200}
 
 
@@ -610,17 +610,26 @@ def execute(trace) -> CaseResult:
         got_new = [[u, t] for u, t in rows if t not in numbered_before]
         clause_lost = "C20.quit.removed-unmarked" if how == "quit" else "C20.no-quit.removed"
         stop = False
+        uid_before = {t: u for u, t in before if u is not None}
+        if any(uid_before.get(t, u) != u for u, t in rows):
+            # surviving messages got new IMAP UIDs: the mailbox was re-indexed as if new
+            sig = "uids-reassigned"
+            stop = True
+
+        def join(*parts):
+            return ":".join(x for x in parts if x)
+
         if [t for _, t in got_old] != [t for _, t in exp]:
             exp_t = [t for _, t in exp]
             got_t = [t for _, t in got_old]
             lost = [t for t in exp_t if t not in got_t]
             kept = [t for t in got_t if t not in exp_t]
             if lost:
-                v(clause_lost, f"session {ps.name}: {how} with marks {sorted(ps.marked)} (UIDs {sorted(marked_uids)}) removed {lost}; INBOX before {before}, after {rows}", bsig + (":" + sig if sig else ""))
+                v(clause_lost, f"session {ps.name}: {how} with marks {sorted(ps.marked)} (UIDs {sorted(marked_uids)}) removed {lost}; INBOX before {before}, after {rows}", join(bsig, sig))
             if kept:
                 v("C20.quit.marked-survived", f"session {ps.name}: QUIT answered +OK but marked {kept} (UIDs {sorted(marked_uids)}) still in INBOX {rows}", sig)
             if not lost and not kept:
-                v("C20.quit.inbox-differs", f"session {ps.name}: INBOX after {how} {rows}, expected {exp} (order changed)", bsig + (":" + sig if sig else ""))
+                v("C20.quit.inbox-differs", f"session {ps.name}: INBOX after {how} {rows}, expected {exp} (order changed)", join(bsig, sig))
         else:
             moved = [(t, u0, u1) for (u0, t), (u1, _) in zip(exp, got_old) if u0 != u1]
             if moved:
@@ -630,7 +639,7 @@ def execute(trace) -> CaseResult:
                 stop = True
         for u, t in got_new:
             if t not in unnumbered_before:
-                v("C20.quit.inbox-differs", f"session {ps.name}: INBOX after {how} contains {t} which was not there before", bsig + ":unexpected-message")
+                v("C20.quit.inbox-differs", f"session {ps.name}: INBOX after {how} contains {t} which was not there before", join(bsig, "unexpected-message"))
             elif u in marked_uids:
                 v("C20.quit.marked-survived", f"session {ps.name}: QUIT answered +OK but marked UID {u} ({t}) still in INBOX {rows}", sig)
         if ps.mutated:
